@@ -2083,7 +2083,7 @@ def _gen_is_done(eng, t, a, fr, dt):
 
 # --------------------------------------------------------------------------- encoding_rs (specification-level summary)
 
-def utf8_decode(eng, bs, lossy_tail=True):
+def utf8_decode(eng, bs, lossy_tail=True, want_pending=False):
     """WHATWG UTF-8 decode with replacement over a list of Int('u8') (possibly symbolic).
     Returns (chars, had_errors).  Forks on the byte classes.  lossy_tail: an incomplete sequence at
     the end yields one U+FFFD (one-shot decode semantics)."""
@@ -2132,10 +2132,12 @@ def utf8_decode(eng, bs, lossy_tail=True):
             hi2 = 0x8F
         cont = []
         bad = False
+        incomplete = False
         j = i + 1
         for m in range(need):
             if j >= n:
                 bad = True
+                incomplete = True
                 break
             bj = bs[j]
             lo, hi = (lo2, hi2) if m == 0 else (0x80, 0xBF)
@@ -2145,6 +2147,11 @@ def utf8_decode(eng, bs, lossy_tail=True):
             else:
                 bad = True
                 break
+        if bad and incomplete and not lossy_tail:
+            # streaming: a so-far well-formed but unfinished sequence is held back
+            if want_pending:
+                return out, err_, list(bs[i:])
+            return out, err_
         if bad:
             # maximal subpart: the bytes consumed so far form one U+FFFD; the offending byte is re-examined
             out.append(0xFFFD)
@@ -2160,6 +2167,8 @@ def utf8_decode(eng, bs, lossy_tail=True):
             cp = ((e0 & 0x07) << 18) | ((ext(cont[0]) & 0x3F) << 12) | ((ext(cont[1]) & 0x3F) << 6) | (ext(cont[2]) & 0x3F)
         out.append(cp)
         i = j
+    if want_pending:
+        return out, err_, []
     return out, err_
 
 
@@ -2186,3 +2195,42 @@ def _decode_without_bom(eng, t, a, fr, dt):
 def _decode(eng, t, a, fr, dt):
     r = _decode_with_bom_removal(eng, t, a, fr, dt)
     return Agg('tuple', (r.f[0], a[0], r.f[1]))
+
+
+# streaming Decoder API of encoding_rs (what a repaired ByteParser uses)
+
+@reg('Encoding::new_decoder_without_bom_handling', 'Encoding::new_decoder', 'Encoding::new_decoder_with_bom_removal')
+def _new_decoder(eng, t, a, fr, dt):
+    bom = 'sniff' if t.key.endswith('new_decoder') else ('remove' if t.key.endswith('removal') else 'none')
+    return Agg('Decoder', (VecV(), bom, True))
+
+
+@reg('Decoder::max_utf8_buffer_length', 'Decoder::max_utf8_buffer_length_without_replacement')
+def _max_utf8_len(eng, t, a, fr, dt):
+    n = a[1]
+    return some(binop('Add', binop('Mul', n, Int('usize', 3)), Int('usize', 4)))
+
+
+@reg('String::with_capacity')
+def _string_with_capacity(eng, t, a, fr, dt):
+    return Str(())
+
+
+@reg('Decoder::decode_to_string')
+def _decode_to_string(eng, t, a, fr, dt):
+    dref, src, dst, last = a
+    dec = eng.load(dref)
+    pending, bom, at_start = dec.f
+    src_items = [deref_all(x) for x in seq_items(eng, src)]
+    bs = list(pending.items) + src_items
+    ctx = eng.ctx
+    if bom != 'none' and at_start and len(bs) >= 3:
+        isbom = bool_and(bool_and(int_eq(bs[0], 0xEF), int_eq(bs[1], 0xBB)), int_eq(bs[2], 0xBF))
+        if ctx.branch(isbom):
+            bs = bs[3:]
+    lastv = last if type(last) is bool else ctx.branch(last)
+    chars, e, pend = utf8_decode(eng, bs, lossy_tail=lastv, want_pending=True)
+    eng.store(dref, Agg('Decoder', (VecV(pend), bom, at_start and len(bs) < 3 and bom != 'none')))
+    cur = as_str(eng, eng.load(dst))
+    eng.store(dst, Str(cur.c + tuple(chars)))
+    return Agg('tuple', (Enum('CoderResult', 0), Int('usize', len(src_items)), e))
